@@ -163,6 +163,8 @@ def replay(job, rec):
                  "has_diff_rows": any(aux.get("rdiff", ())),
                  "has_diff_cols": any(aux.get("cdiff", ())),
                  "vc": bool(scn.get("valid_counts"))}
+    if scn.get("overlaps"):
+        base_tags["overlaps"] = True
     for side, key in (("rows", "row_sort"), ("cols", "col_sort")):
         o = cfg[side]["order"]
         if o["type"] not in ("payload", "explicit"):
@@ -252,8 +254,12 @@ def replay(job, rec):
                 errs = compare(obs, e)
                 if errs:
                     path, o, x = errs[0]
-                    tags = dict(base_tags, prop=prop, out_nd=e.get("nd", 0))
+                    tags = dict(base_tags, prop=prop.split("@")[0], out_nd=e.get("nd", 0))
                     tags.update(cell_tags(path, e.get("nd", 0), aux, cd is not None))
+                    if "@" in prop and len(path) >= 2:
+                        tags["pw_self"] = int(prop.split("@")[1]) == path[1]
+                    if e.get("k") == "pwidx" and len(path) >= 2 and isinstance(o, list):
+                        tags["contains_self"] = path[1] in o
                     mism.append(Mismatch(
                         prop_id, None,
                         "%s[%s] partition %d: library %r, spec %r" %
